@@ -1,9 +1,9 @@
 (* JsExpr/StmtModel.v — executable model of the statement forms of parseStmt that are thin wrappers around
    parseExpression: block, var (identifier bindings), if / else, while (also rewritten to for with Options.WhileToFor),
-   do-while, for ( ; ; ) with an expression or var initialiser, throw, break / continue, labelled statements; expression and empty statements are those of Pratt.v
+   do-while, for ( ; ; ) with an expression or var initialiser, throw, break / continue, debugger, with, try / catch / finally, labelled statements; expression and empty statements are those of Pratt.v
    ([parse_stmt]).  Every form ends with the tail of parseStmt ([skip_semi]): a ';' is taken on the same line, and after
    a line break when the statement is one that a ';' terminates (var, expression, do-while, break / continue, throw).
-   Not modelled ([OutFrag]): for-in / for-of / for await, switch, try, with, return (only inside functions), function / class declarations, let /
+   Not modelled ([OutFrag]): for-in / for-of / for await, switch, return (only inside functions), function / class declarations, let /
    const declarations, import / export, binding patterns, yield / await as names; scopes (C04); the statement nesting
    limit (C01).  Definitions only. *)
 From Verif Require Import Common.Base Gen.PrattTable JsExpr.Syntax JsExpr.Pratt.
@@ -22,7 +22,10 @@ Inductive xstmt :=
 | XDo (s : xstmt) (c : expr)
 | XThrow (e : expr)
 | XBranch (t : Z) (label : option (list Z))  (* t: BreakToken or ContinueToken *)
-| XVar (l : list (list Z * option expr)).
+| XVar (l : list (list Z * option expr))
+| XDebugger
+| XWith (c : expr) (s : xstmt)
+| XTry (b : list xstmt) (c : option (option (list Z) * list xstmt)) (f : option (list xstmt)).   (* try b [catch [(n)] c] [finally f] *)
 
 (* var a [= e] , b [= e] ...   after the `var`; bindings other than identifiers are outside the fragment *)
 Fixpoint parse_xvar (n : nat) (inf : bool) (ts : list token) (acc : list (list Z * option expr)) {struct n}
@@ -149,6 +152,45 @@ Fixpoint parse_xstmt (n : nat) (w2f : bool) (ts : list token) {struct n} : res (
         '(c, r4) <~ parse true prec_OpExpr r3 ;;
         r5 <~ expect tt_CloseParenToken r4 ;;
         Ok (XDo s c, skip_semi true r5)
+      else if ty k =? tt_DebuggerToken then Ok (XDebugger, skip_semi true rest)
+      else if ty k =? tt_WithToken then
+        r1 <~ expect tt_OpenParenToken rest ;;
+        '(c, r2) <~ parse true prec_OpExpr r1 ;;
+        r3 <~ expect tt_CloseParenToken r2 ;;
+        '(s, r4) <~ parse_xstmt m w2f r3 ;;
+        Ok (XWith c s, skip_semi false r4)
+      else if ty k =? tt_TryToken then
+        r1 <~ expect tt_OpenBraceToken rest ;;
+        '(b, r2) <~ parse_xlist m w2f r1 [] ;;
+        (* catch [ ( BindingIdentifier ) ] Block *)
+        '(c, r3) <~ match r2 with
+                   | a :: ra =>
+                       if ty a =? tt_CatchToken then
+                         '(n, rb) <~ match ra with
+                                    | p :: n :: rp =>
+                                        if ty p =? tt_OpenParenToken then
+                                          if (ty n =? tt_OpenBracketToken) || (ty n =? tt_OpenBraceToken) || (ty n =? tt_YieldToken) || (ty n =? tt_AwaitToken) then OutFrag
+                                          else if negb (is_identifier (ty n)) then Fail
+                                          else rq <~ expect tt_CloseParenToken rp ;; Ok (Some (data n), rq)
+                                        else Ok (None, ra)
+                                    | [p] => if ty p =? tt_OpenParenToken then Fail else Ok (None, ra)
+                                    | [] => Ok (None, ra)
+                                    end ;;
+                         rc <~ expect tt_OpenBraceToken rb ;;
+                         '(l, rd) <~ parse_xlist m w2f rc [] ;;
+                         Ok (Some (n, l), rd)
+                       else if ty a =? tt_FinallyToken then Ok (None, r2)
+                       else Fail
+                   | [] => Fail
+                   end ;;
+        '(f, r4) <~ match r3 with
+                   | a :: ra =>
+                       if ty a =? tt_FinallyToken then
+                         rb <~ expect tt_OpenBraceToken ra ;; '(l, rc) <~ parse_xlist m w2f rb [] ;; Ok (Some l, rc)
+                       else Ok (None, r3)
+                   | [] => Ok (None, r3)
+                   end ;;
+        Ok (XTry b c f, skip_semi false r4)
       else if ty k =? tt_ThrowToken then
         match rest with
         | c :: _ => if lt c then Fail else '(e, r) <~ parse true prec_OpExpr rest ;; Ok (XThrow e, skip_semi true r)
@@ -226,4 +268,14 @@ Fixpoint show_xstmt (s : xstmt) : list Z :=
   | XThrow e => s_stmt ++ [40; 116; 104; 114; 111; 119; 32] ++ show e ++ [41]
   | XBranch t lab => s_stmt ++ [40] ++ tok_bytes t ++ match lab with Some n => 32 :: n | None => [] end ++ [41]
   | XVar l => [68; 101; 99; 108; 40; 118; 97; 114] ++ join_sp (map show_binding l) ++ [41]          (* Decl(var Binding(a) ...) *)
+  | XDebugger => s_stmt ++ [40; 100; 101; 98; 117; 103; 103; 101; 114; 41]
+  | XWith c v => s_stmt ++ [40; 119; 105; 116; 104; 32] ++ show c ++ [32] ++ show_xstmt v ++ [41]
+  | XTry b c f =>
+      s_stmt ++ [40; 116; 114; 121; 32] ++ block b ++
+      match c with
+      | Some (n, l) => [32; 99; 97; 116; 99; 104] ++
+                       match n with Some x => [32; 66; 105; 110; 100; 105; 110; 103; 40] ++ x ++ [41] | None => [] end ++ [32] ++ block l
+      | None => []
+      end ++
+      match f with Some l => [32; 102; 105; 110; 97; 108; 108; 121; 32] ++ block l | None => [] end ++ [41]
   end.
